@@ -1,6 +1,8 @@
 import SuppModel.Props.C08Flow
 #print axioms SuppModel.Props.C08Flow.C08_eval_terminates_rank
 #print axioms SuppModel.Props.C08Flow.C08_eval_terminates
+#print axioms SuppModel.Props.C08Flow.C08_ranked_complete_unbounded
+#print axioms SuppModel.Props.C08Flow.C08_ranked_complete
 #print axioms SuppModel.Props.C08Flow.C08_eval_terminates_ex
 #print axioms SuppModel.Props.C08Flow.C08_names_at_answers
 #print axioms SuppModel.Props.C08Flow.C08_history_answers
